@@ -113,3 +113,57 @@ Theorem C12_intern_plus_refuted :
       firstn 2 (ir_names (fst rm1)) <> firstn 1 (ir_names (fst rm2)).
 Proof. exact it_intern_plus_refuted. Qed.
 Print Assumptions C12_intern_plus_refuted.
+
+(* ---- transactions: variables whose content changes between phases and between rules ---- *)
+
+(* the transaction as /repo evaluates it (doEvaluate's loops over the rule's variables and over
+   GetField's result, the cache emptied at the start of every phase): whatever every variable
+   contains in each phase and at each rule (REQUEST_BODY before and after the body is read, ARGS
+   after the body is parsed, RESPONSE_*, MATCHED_VAR, RULE, ENV, counts) and whichever key
+   pointers GetField hands out, every rule sees its own list applied to the content at the moment
+   it runs *)
+Theorem C12_tx_sees_current_content : forall (T : Type) (tf : T -> bytes -> tres) (sem : nat -> list T)
+  (ps : list (tc_txphase T)) st,
+  Forall (fun p => Forall (fun c => tc_rule_wf T sem (c_rule c)) (tc_phase_calls T p)) ps ->
+  fst (tc_eval_tx T tf ps st) = tc_uncached_tx T tf ps.
+Proof. exact tc_eval_tx_sound. Qed.
+Print Assumptions C12_tx_sees_current_content.
+
+(* after a phase nothing in the cache predates the phase: every entry was computed from a value
+   some rule of this phase started from *)
+Theorem C12_phase_cache_fresh : forall (T : Type) (tf : T -> bytes -> tres) (cs : list (tc_call T)) st e,
+  In e (st_cache (snd (tc_eval_calls T tf cs (tc_phase_start T st)))) ->
+  exists c, In c cs /\ e_in e = a_val (c_arg c).
+Proof.
+  intros T tf cs st e H. destruct (tc_phase_cache_fresh T tf cs (tc_phase_start T st) e H) as [[]|Hc]. exact Hc.
+Qed.
+Print Assumptions C12_phase_cache_fresh.
+
+(* the two safety nets depend on each other (seeded defect g).
+   Skipping the input check for variables whose slots hold ONE value throughout a phase (the
+   bodies) is sound as long as the cache is emptied at the start of every phase ... *)
+Theorem C12_unchecked_fixed_slots_need_clearing : forall (T : Type) (tf : T -> bytes -> tres)
+  (sem : nat -> list T) (fixed : nat -> bool) (ps : list (tc_txphase T)) first st,
+  Forall (fun p => Forall (fun c => tc_rule_wf T sem (c_rule c)) (tc_phase_calls T p)) ps ->
+  Forall (fun p => exists sv, tc_slots_fixed T fixed sv (tc_phase_calls T p)) ps ->
+  fst (tc_eval_tx_gen T tf true fixed first ps st) = tc_uncached_tx T tf ps.
+Proof. exact tc_fixed_with_clearing_sound. Qed.
+Print Assumptions C12_unchecked_fixed_slots_need_clearing.
+
+(* ... emptying the cache in the first phase only is sound as long as every lookup is checked ... *)
+Theorem C12_first_phase_clearing_needs_check : forall (T : Type) (tf : T -> bytes -> tres)
+  (sem : nat -> list T) (ps : list (tc_txphase T)) st,
+  Forall (fun p => Forall (fun c => tc_rule_wf T sem (c_rule c)) (tc_phase_calls T p)) ps ->
+  fst (tc_eval_tx_gen T tf false tc_no_fixed true ps st) = tc_uncached_tx T tf ps.
+Proof. exact tc_first_phase_clearing_sound. Qed.
+Print Assumptions C12_first_phase_clearing_needs_check.
+
+(* ... and both together are wrong: REQUEST_BODY looked at in phase 1 (empty) and in phase 2 by
+   rules sharing t:lowercase; the guard of the first theorem holds in each phase *)
+Theorem C12_unchecked_and_uncleared_refuted :
+  exists ps : list (tc_txphase tid),
+    Forall (fun p => Forall (fun c => tc_rule_wf tid tcp_sem_g (c_rule c)) (tc_phase_calls tid p)) ps /\
+    Forall (fun p => exists sv, tc_slots_fixed tid tc_body_fixed sv (tc_phase_calls tid p)) ps /\
+    fst (tc_eval_tx_gen tid tcp_tf_builtin false tc_body_fixed true ps tc_empty) <> tc_uncached_tx tid tcp_tf_builtin ps.
+Proof. exact tc_first_phase_clearing_with_fixed_refuted. Qed.
+Print Assumptions C12_unchecked_and_uncleared_refuted.
